@@ -806,8 +806,49 @@ def rule_n(ctx):
          'if they were factories' if bad else f'only {n} claims found')
 
 
+def rule_o(ctx):
+  """Saving works for every path the file system accepts - a bare file name included:
+  `os.path.dirname('x.json')` is '' and `makedirs('')` raises FileNotFoundError, so a
+  directory derived with os.path.dirname is created only under a test that it is not
+  empty."""
+  idx = ctx.index
+  n = 0
+  for f in idx.all_funcs():
+    if f.module.relpath.endswith('_test.py') or not f.module.name.startswith('pyglove.core.'):
+      continue
+    g = None
+    for c in A.calls_in(f.node):
+      if (A.call_name(c) or '').split('.')[-1] not in ('mkdirs', 'makedirs') or not c.args:
+        continue
+      a = c.args[0]
+      direct = isinstance(a, ast.Call) and (A.call_name(a) or '').endswith('path.dirname')
+      via = None
+      if isinstance(a, ast.Name):
+        defs = [v for _, v in D.defs_of(f.node, a.id) if v is not None]
+        if defs and all(isinstance(v, ast.Call) and (A.call_name(v) or '').endswith('path.dirname') for v in defs):
+          via = a.id
+      if not direct and via is None:
+        continue
+      n += 1
+      ok = False
+      if via is not None:
+        g = g or C.cfg_of(f.node)
+        node = [k for k in g.nodes if k.ast is not None and any(x is c for x in k.calls())]
+        tests = [t for t in g.nodes if t.kind == 'test' and via in A.names_read(t.ast)]
+        if node and tests:
+          blocked = {(t.id, m.id, l) for t in tests for m, l in t.succ if l == 'true'}
+          seen, _ = g.reach(g.entry, blocked_edges=blocked, follow_exc=False)
+          ok = node[0].id not in seen
+      ctx.ob('C05.o', f'{f.qualname}#mkdirs-of-dirname', ok,
+             'the directory part of the target path is created only when there is one', f'{f.module.relpath}:{c.lineno}',
+             f'`{A.unparse(c, 60)}`: pg.save(value, \'x.json\') in the current directory raises FileNotFoundError (makedirs(\'\'))')
+  if n < 1:
+    ctx.ob('C05.o', 'save#mkdirs', True, 'no directory is created from os.path.dirname', 'pyglove/core/symbolic/base.py:1')
+
+
 def run(ctx):
   ctx.consult(*FILES, 'pyglove/core/io/sequence.py')
+  rule_o(ctx)
   rule_a(ctx)
   rule_b(ctx)
   rule_c(ctx)
